@@ -8,7 +8,7 @@
     values), every combination of options, every grace period and interval, every fault plan and
     cancellation point, every clock. [file s k] is the value of the terminal key k.
     [jt o clk s0 k] = deleting k is justified at one of the readings: exists i, justified o (clk i) s0 k. *)
-From CM Require Import Lib.Str Lib.CleanSyntax Gen.Consts Clean.Model Clean.Proofs Clean.Prog Clean.Check Clean.SpecProofs Clean.Concurrent Clean.Interfere Clean.Effective Clean.EffectiveCerts Clean.Kill Clean.InterfereSeq Clean.ConcurrentKill.
+From CM Require Import Lib.Str Lib.CleanSyntax Gen.Consts Clean.Model Clean.Proofs Clean.Prog Clean.Check Clean.SpecProofs Clean.Concurrent Clean.Interfere Clean.Effective Clean.EffectiveCerts Clean.Kill Clean.InterfereSeq Clean.ConcurrentKill Clean.ConcurrentForeign.
 From Coq Require Import String Ascii.
 Open Scope Z_scope.
 
@@ -401,6 +401,34 @@ Theorem C18_concurrent_kill_safe : forall s0 thr0 sched k, kinit_ok thr0 -> k <>
    exists t th0 i, thr0 t = Some th0 /\ justified (kt_opts th0) (kt_clk th0 i) s0 k = true).
 Proof. exact concurrent_kill_safe. Qed.
 Print Assumptions C18_concurrent_kill_safe.
+
+(** ** everything at once (Clean/ConcurrentForeign.v): any number of cleaners stepping call by call, kills, lock expiries
+    AND operations of other actors (no storage_clean lock) at any moment. No assumption on the schedule, none even on
+    the lock. A key outside ocsp/ and certificates/ other than last_clean.json that none of the other actors' operations
+    changes has, after ANY schedule, the node it had at the beginning ... *)
+Theorem C18_every_schedule_other_keys_untouched : forall s0 q,
+  has_prefix ocsp_pfx q = false -> has_prefix certs_pfx q = false -> q <> spec_last_clean ->
+  forall thr0 sched,
+  (forall t th, thr0 t = Some th -> kt_ph th = KFresh) ->
+  (forall f, In (FOp f) sched -> touches q f = false) ->
+  lookup (ks_store (kstepsf (KS s0 None thr0) sched)) q = lookup s0 q.
+Proof. exact frame_all_schedules. Qed.
+Print Assumptions C18_every_schedule_other_keys_untouched.
+
+(** ... and so have X.crt, X.key, X.json of a certificate that is not expired for the grace period of any of the cleaners
+    at any reading of their clocks, provided no other actor writes or deletes X.crt, the asset or a key above them --
+    whatever the cleaners and the others do elsewhere, in whatever order, whoever dies *)
+Theorem C18_every_schedule_live_assets_untouched : forall s0 base suf v c thr0,
+  site_assetb (base ++ spec_ext_crt) = true -> In suf asset_exts ->
+  lookup s0 (base ++ spec_ext_crt) = Some (File v c) ->
+  (forall t th0, thr0 t = Some th0 -> forall i, spec_expired (kt_clk th0 i) (grace (kt_opts th0)) c = false) ->
+  forall sched,
+  (forall t th, thr0 t = Some th -> kt_ph th = KFresh) ->
+  (forall f, In (FOp f) sched ->
+     covers (fkey f) (base ++ spec_ext_crt) = false /\ covers (fkey f) (base ++ suf) = false) ->
+  lookup (ks_store (kstepsf (KS s0 None thr0) sched)) (base ++ suf) = lookup s0 (base ++ suf).
+Proof. exact live_all_schedules. Qed.
+Print Assumptions C18_every_schedule_live_assets_untouched.
 
 (** ** who cleans, read from the source on every run: nothing inside the package calls CleanStorage (there is no
     timer path in certmagic itself -- [Cache.maintainAssets] renews and staples only; the application, e.g. Caddy's
@@ -849,3 +877,65 @@ Example ex_kill_schedule :
   match ks_thr c 0%nat with Some th => match kt_ph th with KDead => true | _ => false end | None => false end = true /\
   match ks_thr c 1%nat with Some th => match kt_ph th with KFinished RNil => true | _ => false end | None => false end = true.
 Proof. vm_compute. split; [reflexivity|]. split; [reflexivity|]. split; [discriminate|]. split; [reflexivity|]. split; [discriminate|]. split; reflexivity. Qed.
+
+(** a schedule with everything: three cleaners, a renewal into the dead site and a new account by other actors while the
+    first cleaner works, the first cleaner killed, its lock expiring, the others cleaning: the account key of the
+    beginning and the live certificate's key file are where they were (hypotheses of the two every-schedule theorems) *)
+Definition ex_fsched : list flabel :=
+  map FL (List.repeat (LStep 0%nat) 15) ++
+  [FOp (FPut ex_renewed (File 77 (crt (T + 90 * day)))); FOp (FPut (s2k "acme/ca/users/new/new.key") (File 78 plain))] ++
+  map FL (List.repeat (LStep 0%nat) 5 ++ [LStep 1%nat; LKill 0%nat; LStep 2%nat; LExpire]) ++
+  map FL (List.concat (List.repeat [LStep 1%nat; LStep 2%nat] 90)).
+Example ex_every_schedule_hyps :
+  let q := s2k "acme/ca/users/u/u.key" in
+  let base := s2k "certificates/iss/live.example/live.example" in
+  (forall f, In (FOp f) ex_fsched -> touches q f = false) /\
+  (forall f, In (FOp f) ex_fsched ->
+     covers (fkey f) (base ++ spec_ext_crt) = false /\ covers (fkey f) (base ++ spec_ext_key) = false) /\
+  (forall t th0, ex_kthr0 t = Some th0 -> forall i, spec_expired (kt_clk th0 i) (grace (kt_opts th0)) (crt (T + 30 * day)) = false) /\
+  lookup (ks_store (kstepsf (KS ex_store2 None ex_kthr0) ex_fsched)) q = lookup ex_store2 q /\
+  lookup (ks_store (kstepsf (KS ex_store2 None ex_kthr0) ex_fsched)) (base ++ spec_ext_key) = lookup ex_store2 (base ++ spec_ext_key) /\
+  lookup ex_store2 (base ++ spec_ext_key) <> None /\
+  ks_holder (kstepsf (KS ex_store2 None ex_kthr0) ex_fsched) = None.
+Proof.
+  assert (Ops : forall f, In (FOp f) ex_fsched ->
+            f = FPut ex_renewed (File 77 (crt (T + 90 * day))) \/ f = FPut (s2k "acme/ca/users/new/new.key") (File 78 plain)).
+  { intros f H. unfold ex_fsched in H. repeat (apply in_app_or in H; destruct H as [H|H]);
+      try (apply in_map_iff in H; destruct H as [l [E _]]; discriminate).
+    destruct H as [E|[E|[]]]; injection E; auto. }
+  split; [intros f H; destruct (Ops f H) as [->| ->]; reflexivity|].
+  split; [intros f H; destruct (Ops f H) as [->| ->]; split; reflexivity|].
+  split.
+  - intros t th0. unfold ex_kthr0. destruct (t <? 3)%nat; [|discriminate]. intros H.
+    assert (E : th0 = KThr ex_env ex_opts_ni (at_ T) KFresh []) by congruence. rewrite E. intros i. reflexivity.
+  - vm_compute. split; [reflexivity|]. split; [reflexivity|]. split; [discriminate | reflexivity].
+Qed.
+
+(** the hypotheses of C18_expired_cert_assets_removed on the same storage: X.key of the long-expired certificate is gone *)
+Example ex_dead_assets_removed :
+  lookup (sto (snd (clean ex_env ex_opts_ni (at_ T) ex_store2))) (s2k "certificates/iss/dead.example/dead.example.key") = None.
+Proof.
+  apply (C18_expired_cert_assets_removed ex_env ex_opts_ni (at_ T) ex_store2 (s2k "certificates/iss")
+           (s2k "certificates/iss/dead.example") (s2k "certificates/iss/dead.example/dead.example.crt") 3 (crt (T - 31 * day)))
+    with (x := s2k "certificates/iss/dead.example/dead.example.key").
+  - repeat split.
+  - reflexivity.
+  - vm_compute. discriminate.
+  - apply crt_wfb_sound. vm_compute. reflexivity.
+  - intros v c. vm_compute. discriminate.
+  - exists (s2k "iss"). split; reflexivity.
+  - exists (s2k "dead.example"). split; reflexivity.
+  - intros v c. vm_compute. discriminate.
+  - intros v c. vm_compute. discriminate.
+  - exists (s2k "dead.example.crt"). split; reflexivity.
+  - reflexivity.
+  - reflexivity.
+  - intros i. reflexivity.
+  - right; left; reflexivity.
+  - vm_compute. reflexivity.
+Qed.
+(** C18_expired_is_past_not_after on a certificate with NotAfter in the middle of a second *)
+Example ex_past_not_after :
+  let c := crt (T - 30 * day + 500000000) in
+  spec_expired T (30 * day) c = false /\ spec_expired (T + second) (30 * day) c = true.
+Proof. vm_compute. split; reflexivity. Qed.
